@@ -396,7 +396,19 @@ func genG14(repo string, w *Out) error {
 	w.DefBool("parse_proxy_trims", strings.HasPrefix(bp, "v1 = strings.TrimSpace(v1) ; "))
 	w.DefBool("parse_proxy_has_direct_literal", strings.Contains(bp, `if v1 == "DIRECT" { return Proxy{Mode: DIRECT}, nil }`))
 	w.DefBool("parse_proxy_validates_port", strings.Contains(bp, `strconv.ParseUint(v6, 10, 16); v8 != nil { return noProxy,`))
-	w.DefBool("parse_proxy_rejects_empty_host", strings.Contains(bp, `if v5 == "" { return noProxy,`))
+	validatesHost := strings.Contains(bp, `if v5 == "" || strings.ContainsFunc(v5, isBlankOrControl) { return noProxy,`)
+	if validatesHost {
+		bb, _, err := g14Body(fx, "isBlankOrControl")
+		if err != nil {
+			return err
+		}
+		if bb != "return v1 <= ' ' || v1 == 0x7f" {
+			return fmt.Errorf("isBlankOrControl: body %q is not the shape the model knows", bb)
+		}
+	} else if strings.Contains(bp, "isBlankOrControl") || strings.Contains(bp, `v5 == ""`) {
+		return fmt.Errorf("parseProxy: a host check that is not the shape the model knows: %q", bp)
+	}
+	w.DefBool("parse_proxy_validates_host", validatesHost)
 	if !strings.Contains(bp, `v2, v3, v4 := strings.Cut(v1, " ") ; if !v4 { return noProxy, errors.New(`) ||
 		!strings.Contains(bp, `v5, v6, v7 := net.SplitHostPort(v3) ; if v7 != nil { return noProxy, fmt.Errorf(`) ||
 		!strings.Contains(bp, `if v1 == "" { return noProxy, nil }`) {
